@@ -186,6 +186,7 @@ def spelling_probe(ctx):
     from harness.refserver import Server
     found, n = [], 0
     keys = ["key-%d" % i for i in range(16)] + [b"bkey-%d" % i for i in range(6)] + [("sk-%d" % i, "inner-%d" % i) for i in range(3)] + ["aa", "ba", b"ab", b"zz"]
+    keys += ["big-%03d" % i for i in range(90)]        # batches of dozens of keys per server (any size is one batch)
     bare = lambda k: k[1] if isinstance(k, tuple) else k
     for servers in SPELLED:
         for pooling in (False, True):
